@@ -724,10 +724,12 @@ pub fn run<G: LatticeGen>(sim: &mut Sim, mode: Mode) -> Outcome {
     if w.viol.is_none() {
         // harness self-check of the update model: acknowledged ⊆ survived ⊆ issued, and after the
         // tail every replica has seen the same set of updates
-        let survived = w.reps[0].known;
+        // (flag-driven flood: an update whose content was already subsumed is not forwarded, so
+        // the id sets may differ there although the values are equal; survived = union)
+        let survived = (0..n).fold(0, |m, r| m | w.reps[r].known);
         for r in 0..n {
-            if w.reps[r].known != survived {
-                w.fail("HARNESS/known_sets_differ", format!("R{r} known {:#b} vs R0 {:#b}", w.reps[r].known, survived));
+            if mode != Mode::C02 && w.reps[r].known != survived {
+                w.fail("HARNESS/known_sets_differ", format!("R{r} known {:#b} vs all {:#b}", w.reps[r].known, survived));
             }
         }
         if w.acked & !survived != 0 || survived & !w.issued != 0 {
